@@ -75,6 +75,8 @@ def extract_writer():
     env = _module_consts(tree)
     fn = _find_func(tree, "write_bf3_format")
     info = dict(env=env)
+    # simple local definitions (name = integer expression) are inlined into the environment
+    info["locals"] = [(n.targets[0].id, n.value) for n in ast.walk(fn) if isinstance(n, ast.Assign) and len(n.targets) == 1 and isinstance(n.targets[0], ast.Name) and not isinstance(n.value, (ast.Call, ast.Subscript, ast.Attribute, ast.Lambda, ast.IfExp))]
     for n in ast.walk(fn):
         if isinstance(n, ast.For) and isinstance(n.iter, ast.Call) and getattr(n.iter.func, "id", "") == "range":
             info["range_args"] = n.iter.args
@@ -189,8 +191,13 @@ def _class_z3(items, c):
 def lemma_lines(twin=False):
     """T1: slices cover [0,n) exactly once, in order, each line <= END_OF_LINE chars"""
     w = extract_writer()
-    env = w["env"]
+    env = dict(w["env"])
     n, i, k = z3.Ints("n i k")
+    for name, val in w.get("locals", []):
+        try:
+            env[name] = _lia(val, env, n, w["sliced"])
+        except Unsupported:
+            pass
     args = [_lia(a, env, n, w["sliced"]) for a in w["range_args"]]
     if len(args) == 1:
         start, stop, step = z3.IntVal(0), args[0], z3.IntVal(1)
@@ -241,6 +248,7 @@ def lemma_lines(twin=False):
     s.add(n >= 0, in_range, 2 * (z3.If(hi < n, hi, n) - lo) > env["END_OF_LINE"])
     queries.append(("linewidth", s.check()))
     s.pop()
+    # END_OF_LINE is needed as a number below
     bad = [q for q, r in queries if r != z3.unsat]
     unk = [q for q, r in queries if r == z3.unknown]
     wit = None
